@@ -272,22 +272,61 @@ theorem file_of_flags {x : Entry} (h : x.dir = !x.file) :
     (x.dir = true → x.file = false) ∧ (x.dir = false → x.file = true) := by
   revert h; cases x.dir <;> cases x.file <;> simp
 
+/-- a clause only touches the low 9 bits: everything from bit 9 up is kept (on `u32` values) -/
+theorem applyExpr_div512 (k : EKind) (cs : List Clause) (m : Nat) (hm : m < 2 ^ 32) :
+    applyExpr k cs m / 512 = m / 512 ∧ applyExpr k cs m < 2 ^ 32 := by
+  induction cs generalizing m with
+  | nil => exact ⟨rfl, hm⟩
+  | cons c cs ih =>
+    rw [Lemmas.applyExpr_cons]
+    split
+    · have h1 : c.apply m = applyOp c.op (whoBits c.who) (permBits c.perms) m := rfl
+      have h2 := Lemmas.applyOp_keeps c.op (whoBits c.who) (permBits c.perms) m (whoBits_le _) hm
+      rw [← h1] at h2
+      have h3 := ih (c.apply m) h2.2
+      exact ⟨h3.1.trans h2.1, h3.2⟩
+    · exact ih m hm
+
+theorem perm_bound' (a b t : Nat) (hd : a / 512 = b / 512)
+    (hp : b < 512 * t + 4096) : a < 512 * t + 4096 := by
+  omega
+theorem sub_lt_of (b T : Nat) (hp : b - T < 4096) : b < T + 4096 := by omega
+theorem lt_sub_of (a T : Nat) (h : a < T + 4096) : a - T < 4096 := by omega
+/-- same bits from bit 9 up, and `b` is `T` plus permission bits (`T` a directory/file type bit):
+    so is `a` -/
+theorem perm_bound (a b T : Nat) (hT : T = 16384 ∨ T = 32768) (hd : a / 512 = b / 512)
+    (hp : b - T < 4096) : a - T < 4096 := by
+  have hb := sub_lt_of b T hp
+  apply lt_sub_of
+  rcases hT with h | h
+  · have e : T = 512 * 32 := by rw [h]
+    rw [e] at hb ⊢; exact perm_bound' a b 32 hd hb
+  · have e : T = 512 * 64 := by rw [h]
+    rw [e] at hb ⊢; exact perm_bound' a b 64 hd hb
+
+/-- `set_mode` stores a canonical mode (type bits of the kind, nothing else above the permission
+    bits) unchanged; since the `mode_type_bits` repair the second condition is needed (foreign
+    high bits are masked away) -/
 theorem setMode_mode_sym (x : Entry) (m : Nat) (hl : x.link = false) (hfl : x.dir = !x.file)
-    (hm : m &&& typeBits (kindOf x) = typeBits (kindOf x)) : (x.setMode m).mode = m := by
-  unfold kindOf at hm
-  rw [hl] at hm
-  unfold Entry.setMode optsMode
+    (hm : m &&& typeBits (kindOf x) = typeBits (kindOf x))
+    (hp : m - typeBits (kindOf x) < 0o10000) : (x.setMode m).mode = m := by
+  have h0 : typeBits (kindOf x) &&& 0o7777 = 0 := by cases kindOf x <;> simp [typeBits]
+  have hc := RefineA.canon_of_wf m _ h0 hm hp
+  unfold kindOf at hc
+  rw [hl] at hc
+  unfold Entry.setMode
+  simp only [ModeBits.optsMode_some]
   cases hd : x.dir with
   | true =>
     have hfile : x.file = false := (file_of_flags hfl).1 hd
-    rw [hd] at hm
-    simp only [hl, hfile, Bool.false_eq_true, if_false, if_true, Option.getD_some]
-    exact or_of_and_eq _ _ hm
+    rw [hd] at hc
+    simp only [hl, hfile, Bool.false_eq_true, if_false, if_true]
+    exact hc
   | false =>
     have hfile : x.file = true := (file_of_flags hfl).2 hd
-    rw [hd] at hm
-    simp only [hl, hfile, Bool.false_eq_true, if_false, if_true, Option.getD_some]
-    exact or_of_and_eq _ _ hm
+    rw [hd] at hc
+    simp only [hl, hfile, Bool.false_eq_true, if_false, if_true]
+    exact hc
 
 theorem node_perm_eta (s : State) (k : FsPath) (x : Entry) :
     absNode s k x = { absNode s k x with perm := x.mode - typeBits (kindOf x) } := rfl
@@ -310,7 +349,20 @@ theorem node_sym (s : State) (k : FsPath) (x : Entry) (cs : List Clause) (hEF : 
   have hmode : (absNode s k x).mode = x.mode := RefineA.absNode_mode hEF
   have htb : symMode cs x &&& typeBits (kindOf x) = typeBits (kindOf x) :=
     applyExpr_typeBits _ cs x hl _ hEF.modeWf
-  have hsm : (x.setMode (symMode cs x)).mode = symMode cs x := setMode_mode_sym x _ hl hEF.flags htb
+  have hperm : symMode cs x - typeBits (kindOf x) < 0o10000 := by
+    have hw := hEF.modeWf
+    have hp := hEF.permWf
+    have hT : typeBits (kindOf x) = 0o40000 ∨ typeBits (kindOf x) = 0o100000 := by
+      unfold kindOf; rw [hl]; cases x.dir <;> simp [typeBits]
+    have hlt : x.mode < 2 ^ 32 := by
+      have h1 := sub_lt_of _ _ hp
+      have h2 : typeBits (kindOf x) ≤ 32768 := by rcases hT with h | h <;> rw [h] <;> decide
+      have h3 : x.mode < 32768 + 4096 := Nat.lt_of_lt_of_le h1 (Nat.add_le_add_right h2 _)
+      exact Nat.lt_trans h3 (by decide)
+    have hd := (applyExpr_div512 (ekind x) cs x.mode hlt).1
+    exact perm_bound _ _ _ hT hd hp
+  have hsm : (x.setMode (symMode cs x)).mode = symMode cs x :=
+    setMode_mode_sym x _ hl hEF.flags htb hperm
   have h1 : absNode s k (x.setMode (symMode cs x)) =
       { absNode s k x with perm := (x.setMode (symMode cs x)).mode - typeBits (kindOf x) } := rfl
   refine ⟨?_, ?_, ne_zero_of_typeBits htb⟩
